@@ -13,7 +13,7 @@ def limitsOp (args : List String) : String :=
       let (soft, hard) := limits rem m
       let ok := decide (0 ≤ soft) && decide (soft ≤ hard) && decide (hard ≤ rem)
       -- the property: for a clock that has not run out and a sane move count, 0 ≤ soft ≤ hard ≤ remaining
-      withSpec s!"{soft} {hard} ok={boolStr ok}" (if 0 ≤ rem ∧ 0 ≤ m ∧ m < 2147483648 then some "* * ok=true" else none)
+      withSpec s!"{soft} {hard} ok={boolStr ok}" (if 0 ≤ rem ∧ rem < 4611686018427387904 then some "* * ok=true" else none)
     | _, _, _ => "bad-op"
   | _ => "bad-op"
 
